@@ -31,7 +31,7 @@ BOUND = {
     "thorough": "types x 5 decorations x 3 contexts; settings subsets <=4 x 9 column variants; text fragments len<=2 x 17 channels x ref/no-ref; L(5,3) x 3 rotations; 4 containers x catalogue",
 }
 # as-built additions to the bound (kept next to BOUND so that the evidence reports them)
-BOUND = {k: v + "; plus: " + 'settings product also with an entities sheet; element names with the 52 range-edge characters of the XML name productions (first / middle / last); 1-3 choice lists x invalid extra-column headers valued in any subset of the lists' for k, v in BOUND.items()}
+BOUND = {k: v + "; plus: " + '7 legal namespace prefixes (hyphen, dot, digit, non-ASCII) x 4 declaration spellings x 4 use sites; survey and choices sheets in different header-delimiter styles; settings product also with an entities sheet; element names with the 52 range-edge characters of the XML name productions (first / middle / last); 1-3 choice lists x invalid extra-column headers valued in any subset of the lists' for k, v in BOUND.items()}
 
 FRAGS = ["<", ">", "&", '"', "'", "]]>", "&amp;", "&#60;", "&lt;", "<!--", "-->", "<![CDATA[",
          '<output value="x"/>', "</label>", "{", "}", "$", "a", "é", "\U0001F600", "שלום",
@@ -132,6 +132,58 @@ def gen_settings(tier):
                     wb["entities"] = [{"list_name": "trees", "label": "concat(${q}, 'x')"}]
                 meta = {"gen": "settings", "st": sorted(st2), "col": tag}
                 yield {"wb": wb, "meta": meta, "id": st2.get("form_id", "data")}
+
+
+NS_PREFIXES = ["my-org", "a.b", "x_1", "\u00e9", "zz", "a-b.c_d", "z9"]
+NS_SITES = ["bind::{p}:u", "instance::{p}:u", "body::{p}:u", "settings.attribute::{p}:u"]
+
+
+def gen_nsprefix(tier):
+    """legal namespace prefixes beyond [a-z]+ in the namespaces setting, declared in three spellings, used at every custom-attribute site"""
+    for pfx in NS_PREFIXES:
+        for di, decl in enumerate(('{p}="http://e.x/ns"', "{p}=http://e.x/ns", 'yy="http://y.y" {p}="http://e.x/ns"', "{p}='http://e.x/ns' yy=http://y.y")):
+            for site in NS_SITES:
+                for ent in (False, True):
+                    row = {"type": "text", "name": "q", "label": "Q"}
+                    st = {"namespaces": decl.format(p=pfx)}
+                    col = site.format(p=pfx)
+                    if col.startswith("settings."):
+                        st[col.split(".", 1)[1]] = "1"
+                    else:
+                        row[col] = "1"
+                    wb = {"survey": [row], "settings": [st]}
+                    if ent:
+                        row["save_to"] = "p"
+                        wb["entities"] = [{"list_name": "trees", "label": "${q}"}]
+                    yield {"wb": wb, "meta": {"gen": "nsprefix", "col": f"{site.split('{')[0]}:decl{di}"}, "id": "data"}
+
+
+def gen_mixdelim(tier):
+    """the two documented grouped-header delimiters, one per sheet (each sheet is read in its own style)"""
+    def hd(style, *parts):
+        return (":" if style == 1 else "::").join(parts) if not (style == 1 and parts[0] == "media") else ":".join(parts[1:])
+
+    for ss in (1, 2):
+        for cs in (1, 2):
+            for langs in (("English",), ("English", "French"), ("English (en)", "French (fr)")):
+                for media in (False, True):
+                    for sel in ("select_one c", "select_multiple c", "rank c"):
+                        row = {"type": sel, "name": "s"}
+                        chs = [{"list_name": "c", "name": "x"}, {"list_name": "c", "name": "y"}]
+                        for L in langs:
+                            row[hd(ss, "label", L)] = f"S {L}"
+                            row[hd(ss, "hint", L)] = f"H {L}"
+                            for i, c in enumerate(chs):
+                                c[hd(cs, "label", L)] = f"C{i} {L}"
+                                if media:
+                                    c[hd(cs, "media", "image", L)] = f"c{i}.png"
+                        if media:
+                            row[hd(ss, "media", "image", langs[0])] = "s.png"
+                        for fmt in (None, "md", "xlsx"):
+                            c_ = {"wb": {"survey": [row], "choices": chs}, "meta": {"gen": "mixdelim", "col": f"survey{ss}-choices{cs}:{fmt or 'dict'}"}, "id": "data"}
+                            if fmt:
+                                c_["fmt"] = fmt
+                            yield c_
 
 
 # bad author-typed *names* (not text): each is its own known-finding channel
@@ -319,7 +371,8 @@ def gen_containers(tier):
 
 SPACE = GenSpace(
     {"names": gen_names, "types": gen_types, "layouts": gen_layouts, "containers": gen_containers,
-     "settings": gen_settings, "text": gen_text, "namechars": gen_namechars, "lists-cols": gen_lists_cols},
+     "settings": gen_settings, "text": gen_text, "namechars": gen_namechars, "lists-cols": gen_lists_cols,
+     "nsprefix": gen_nsprefix, "mixdelim": gen_mixdelim},
     chunk=250,
 )
 blocks = SPACE.blocks
